@@ -103,7 +103,19 @@ func replayFile(path string) {
 			mp[UniversalID(x)] = PartyID(sc.Membership[u])
 		}
 		w := newOrchWorld(sc.ID, sc.Self, sc.Threshold, mp)
+		toMap := func(in map[string]uint16) map[UniversalID]PartyID {
+			m := map[UniversalID]PartyID{}
+			for u, p := range in {
+				var x int
+				fmt.Sscanf(u, "%d", &x)
+				m[UniversalID(x)] = PartyID(p)
+			}
+			return m
+		}
 		for _, st := range sc.Steps {
+			if st.MapPre != nil {
+				w.sc.Steps = append(w.sc.Steps, w.remap(toMap(st.MapPre)))
+			}
 			switch st.Op {
 			case "start":
 				w.sc.Steps = append(w.sc.Steps, w.start(*st.Plan))
@@ -113,6 +125,8 @@ func replayFile(path string) {
 				w.sc.Steps = append(w.sc.Steps, w.cancelSession(st.SID))
 			case "inject":
 				w.sc.Steps = append(w.sc.Steps, w.inject(*st.Inject))
+			case "remap":
+				w.sc.Steps = append(w.sc.Steps, w.remap(toMap(st.Map)))
 			}
 		}
 		emit(w.sc)
